@@ -449,8 +449,9 @@ def canon_model(case, tm):
         else:
             err, ro, s = e
             ro = ro[0] if ro else None
-        ring, cons, dt, dur, incl, valid, ign, par = s
-        snap = [ring, sorted([list(x) for x in cons]), F.dec_float(dt), F.dec_float(dur), incl, valid, ign, par]
+        ring, cons, dt, dur, incl, valid, ign, par, ucons = s
+        snap = [ring, sorted([list(x) for x in cons]), F.dec_float(dt), F.dec_float(dur), incl, valid, ign, par,
+                sorted([list(x) for x in ucons])]
         out.append([err, snap] if i == 0 else [err, ro, snap])
     return out
 
@@ -554,8 +555,11 @@ def oracle_record(case, tr):
         e, _out, cur = ent
         if isinstance(cur, dict):
             return fail(i, op, "state_unreadable", error=cur["snaperr"])
-        pr, pcons, pdt, pdur, pincl, pvalid, pign, _ = prev
-        cr, ccons, cdt, cdur, cincl, cvalid, cign, _ = cur
+        pr, pcons, pdt, pdur, pincl, pvalid, pign, _, _ = prev
+        cr, ccons, cdt, cdur, cincl, cvalid, cign, _, cucons = cur
+        # RecordTensor.constraints: the record dimension hidden, non-negative dims shifted back
+        if sorted(cucons) != sorted([(d - 1 if d >= 0 else d), s_] for d, s_ in ccons):
+            return fail(i, op, "user_constraints_view", raw=ccons, view=cucons)
         ph, ch = ring_hist(pr), ring_hist(cr)
         k = op[0]
         # a tensor reported valid satisfies every constraint
